@@ -68,6 +68,7 @@ TwinClauses(e) ==
         C11_obs    |-> e.tw11 # 0 /\ CleanAdds(Trace[e.tw11].parent),
         C11_state  |-> e.tw11s # 0 /\ CleanAdds(e.tw11s),
         C15_same   |-> e.tw15 # 0,
+        C15_target |-> e.op \in {"dotelem", "dotnone"} /\ Has(e.pre.insw, e.sym) /\ e.res.ok,
         C15_readchild |-> e.reads # <<>>,
         \* C18: for children supplied in a schema-valid order the unchecked element's output is byte-identical
         C18_same   |-> /\ e.tw18 # 0 /\ e.op = "tostring" /\ ~e.pre.chk
@@ -81,7 +82,13 @@ TwinClauses(e) ==
    C11_obs    |-> ante.C11_obs => SameObs(Obs(e), Obs(Trace[e.tw11])),
    C11_state  |-> ante.C11_state => e.post.ordw = Trace[e.tw11s].post.ordw,
    \* shortcut == explicit call
-   C15_same   |-> ante.C15_same => SameObs(Obs(e), Obs(Trace[e.tw15])),
+   \* (the two histories create their children in the same order, so the child numbers are comparable as well)
+   C15_same   |-> ante.C15_same => LET f == Trace[e.tw15] IN
+                     SameObs(Obs(e), Obs(f)) /\ (e.res.ok => (e.post.ins = f.post.ins /\ e.post.ord = f.post.ord)),
+   \* the shortcut addresses the FIRST child of that name in insertion order, like find_child / the explicit call would
+   C15_target |-> ante.C15_target =>
+        LET j == FirstIdx(e.pre.insw, e.sym) IN
+        e.post.ins = (IF e.op = "dotelem" THEN Subst(e.pre.ins, j, e.kid) ELSE Without(e.pre.ins, j)),
    \* reading e.xml_x: a child of that name that the element holds (which one, when there are several, is not
    \* constrained), None when there is none; never an error for a schema child
    C15_readchild |-> ante.C15_readchild =>
@@ -94,7 +101,7 @@ TwinClauses(e) ==
 
 AllClauses == {"C01_word", "C01_text", "C02_accept", "C02_final", "C06_add", "C06_remove", "C06_replace", "C06_out",
                "C07_ext", "C10_frame", "C10_future", "C11_obs", "C11_state", "C12_reject", "C12_unique", "C15_same",
-               "C15_noop", "C15_valframe", "C15_readchild", "C16_pure", "C16_future", "C18_free", "C18_same", "C18_order", "C19_class", "C19_quiet", "cascade"}
+               "C15_noop", "C15_valframe", "C15_readchild", "C15_target", "C16_pure", "C16_future", "C18_free", "C18_same", "C18_order", "C19_class", "C19_quiet", "cascade"}
 
 VARIABLES i, cnt     \* cnt[n] = number of steps so far that exercised clause n (non-vacuity accounting)
 
